@@ -39,6 +39,8 @@ def name_of_ident(t):
         return None
     if t[0] == "app" and t[1] == "proj" and t[2][0][0] == "var":
         return t[2][0][1]
+    if t[0] == "app" and t[1] == "field" and t[2][0][0] == "var" and t[2][1] == ("lit", "0"):
+        return t[2][0][1]        # Identifier(name) read as name.0
     if t[0] == "lit":
         return repr(t[1])
     return fmt_term(t)
